@@ -212,13 +212,13 @@ def handle (s : St) (j : Json) : St × Json :=
         | _, _ => (s, bad "C16: append_column")
       | Json.str "write_rows", [d, ix] =>
         match rows? d, ints? ix with
-        | some d, some ix => if rowsOutside false f.types d then outside else wrote (sstep f (.writeRows d ix))
+        | some d, some ix => if rowsOutside false f.types d then outside else wrote (fxWriteRows f d ix)
         | _, _ => (s, bad "C16: write_rows")
       | Json.str "write_rows", [d, ix, fm] =>
         match rows? d, ints? ix with
         | some d, some ix =>
           match recOf? fm none d with
-          | some r => if rowsOutside false f.types d then outside else wrote (sstep f (OpR.toOp (.writeRowsRec r ix)))
+          | some r => if rowsOutside false f.types d then outside else wrote (fxWriteRows f r.tuples ix)
           | none => (s, bad "C16: write_rows form")
         | _, _ => (s, bad "C16: write_rows")
       | Json.str "write_row_flat", [d, ix, fm] =>
